@@ -157,10 +157,22 @@ TNext ==
      /\ Bound(e)
      /\ lastTick' = IF e.a[1] = "Tick" THEN e.a[2]
                     ELSE IF e.a[1] = "KillAt" /\ e.a[4][1] = "Tick" THEN e.a[2] ELSE Nil
-     /\ GNextWith(IF Has(e, "atkill") THEN {[hist |-> e.atkill.hist, log |-> e.atkill.log, commit |-> e.atkill.commit, term |-> e.atkill.term]} ELSE {})
-     /\ LET d == IF Conform THEN StepDiff(e) ELSE {}
-            rel == IF Conform THEN Relational(e) ELSE TRUE
-            bad == StepViolations \cup StateViolations'
+     /\ IF (\E n \in Nodes : node'[n].alive /\ node'[n].log = <<>>) \/ (\E n \in Nodes : node[n].alive /\ node[n].log = <<>>)
+        THEN UNCHANGED gvarsNoTick
+        ELSE GNextWith(IF Has(e, "atkill") THEN {[hist |-> e.atkill.hist, log |-> e.atkill.log, commit |-> e.atkill.commit, term |-> e.atkill.term]} ELSE {})
+     /\ LET \* a node whose log became EMPTY (the code then fails on every access to its last entry): every formula and
+            \* step function presupposes a non-empty log, so such states are reported by one formula of their own
+            emptyNow == \E n \in Nodes : node[n].alive /\ node[n].log = <<>>
+            emptyNext == \E n \in Nodes : node'[n].alive /\ node'[n].log = <<>>
+            \* known finding KF7, second consequence: the pending compaction of a node whose log was meanwhile replaced by an
+            \* OLDER snapshot trims beyond the end of the log
+            kf7 == \A n \in Nodes : (node'[n].alive /\ node'[n].log = <<>> /\ node[n].alive /\ node[n].log # <<>>) =>
+                      (node[n].serPid = -1 /\ node[n].serId > Last(node[n].log).idx)
+            d == IF emptyNow \/ emptyNext THEN {} ELSE IF Conform THEN StepDiff(e) ELSE {}
+            rel == IF emptyNow \/ emptyNext THEN TRUE ELSE IF Conform THEN Relational(e) ELSE TRUE
+            bad == IF emptyNext /\ ~emptyNow THEN (IF kf7 THEN {"C04.LogNeverEmpty#KF7"} ELSE {"C04.LogNeverEmpty", "C01.LogNeverEmpty"})
+                   ELSE IF emptyNow \/ emptyNext THEN {}
+                   ELSE StepViolations \cup StateViolations'
                    \cup (IF e.a[1] = "Assert" /\ ~Converged'
                          THEN (IF ResetLivelockSig' THEN {"C05.Converged#KF5"} ELSE {"C05.Converged"}) ELSE {})
         IN /\ ndrift' = IF d = {} /\ rel THEN ndrift
